@@ -390,3 +390,30 @@ Proof.
   destruct (check_ambiguities r' pl'); simpl in E; try discriminate. inversion E; subst.
   eapply C02_language_model; eauto.
 Qed.
+
+(** How [subs_ok] is obtained.  (1) If every within-word automaton is the raw automaton the model
+    itself builds (any pop order) for the within-word regex the oracle maps to it, [subs_ok] holds. *)
+Lemma subs_ok_raw : forall submap pl cd,
+  (forall rid k, assocN rid submap = Some k ->
+     exists rr pick fuel sm states,
+       nthN pl rid = Some rr /\ dfa_from_regex pick fuel sm rr = Ok (sub_dfa cd k, states)) ->
+  subs_ok submap pl cd.
+Proof.
+  intros submap pl cd H rid k Hk v.
+  destruct (H rid k Hk) as [rr [pick [fuel [sm [states [Hn Hd]]]]]].
+  rewrite (waccepts_regex_wlang _ _ _ _ _ _ Hd v). unfold pool_wlang. split.
+  - intros Hv. eauto.
+  - intros [rr' [Hn' Hv]]. congruence.
+Qed.
+
+(** (2) It is preserved when every within-word automaton is replaced by one that accepts the same
+    within-word item sequences (what minimisation must guarantee, C03). *)
+Lemma subs_ok_equiv : forall submap pl d subs subs',
+  subs_ok submap pl (mkcdfa d subs) ->
+  (forall k v, waccepts (sub_dfa (mkcdfa d subs') k) v <-> waccepts (sub_dfa (mkcdfa d subs) k) v) ->
+  forall d', subs_ok submap pl (mkcdfa d' subs').
+Proof.
+  intros submap pl d subs subs' H He d' rid k Hk v.
+  change (sub_dfa (mkcdfa d' subs') k) with (sub_dfa (mkcdfa d subs') k).
+  rewrite He. apply (H rid k Hk v).
+Qed.
